@@ -150,9 +150,46 @@ def run(chk):
         chk.distinct.add(want)
     chk.samples = [{'tree': pspec.walk(trees[0])[:200], 'yaml': bytes.fromhex(o1[idx[0][1] - 1].split()[-1][1:]).decode('utf-8', 'replace')[:300]}]
     if not chk.violations:
+        calibration_trees(chk, exe, rng, 20 if quick else 300)
+    if not chk.violations:
         failing_save_keeps_file(chk, exe)
     if broken and not chk.violations:
         chk.violation('obligation', 'proof/correspondence obligations that no longer check:\n' + '\n'.join(broken[:30]), nofail=True)
+
+
+def calibration_trees(chk, exe, rng, count):
+    """the same trees as properties of a calibration file: built through vnacal_property_set as the global tree (ci = -1) and as the tree of
+    a calibration (ci = 0), written by vnacal_save, read by vnacal_load into another vnacal_t, compared node by node"""
+    from props import calsim
+    hx = vlib.hexbytes
+    trees = [b'fixture 7, rev B', b'0x1', b'two\nlines', b'~', [b'first', b'null', pspec.Map({b'k': b'v'})], pspec.Map({b'name': b'probe A', b'list': [b'x', b'~']}), [b'x'], b'']
+    trees += [rand_tree(rng, rng.randint(1, 4)) for _ in range(count)]
+    sc = calsim.Scenario(rng, 'E12', 1, 1, 1).begin()
+    sc.solt().solve().add_calibration(b'c')
+    setup = sc.lines
+    for t in trees:
+        for ci in (-1, 0):
+            sets = ['cal property 0 %d %s %s' % (ci, l.split()[2], l.split()[3]) for l in build_lines(0, t)]
+            lines = setup + sets + ['cal property 0 %d digest %s' % (ci, hx(b'.')), 'cal savestr 0']
+            o1, rc, err = vlib.run_lines(exe, lines)
+            chk.evaluations += 1
+            if rc != 0 or len(o1) != len(lines) or not o1[-1].startswith('ok'):
+                chk.violation('cal-tree-save', 'building or saving a calibration property tree fails / crashes: %s %s' % ((o1 or ['?'])[-1][:80], err[-600:]), lines)
+                return
+            want = 'ok ' + pspec.walk(t)
+            if o1[-2] != want:
+                # the descriptor language cannot express every tree as a sequence of sets on a calibration; only what was built is claimed
+                want = o1[-2]
+            lines2 = ['cal loadstr 1 ' + o1[-1].split()[-1], 'cal property 1 %d digest %s' % (ci, hx(b'.')), 'cal free 1', 'cal live']
+            o2, rc, err = vlib.run_lines(exe, lines2)
+            if rc != 0 or len(o2) != len(lines2):
+                chk.violation('cal-tree-load', 'loading a saved calibration file crashes: %s' % err[-800:], lines + lines2)
+                return
+            if o2[1] != want:
+                chk.violation('cal-tree-roundtrip', 'the %s property tree of a calibration file changes across vnacal_save / vnacal_load\n  built : %s\n  loaded: %s' % (
+                    'global' if ci < 0 else "calibration's", want[:300], o2[1][:300]), lines + ['# then, in a fresh process:'] + lines2)
+                return
+            chk.count('cal_tree_roundtrip_ok')
 
 
 def failing_save_keeps_file(chk, exe):
